@@ -13,7 +13,7 @@ Record pcase := mkCase {
   c_args : list str;
   c_ftab : list (str * option N);   (* strconv.ParseFloat on every candidate text of the case *)
   (* observed *)
-  c_err : option (str * bool * ekind);   (* message, errors.Is(err, ErrorParsing), kind as classified by the harness *)
+  c_err : option (str * bool * ekind * list str);   (* message, errors.Is(err, ErrorParsing), kind as classified by the harness *)
   c_rem : list str;
   c_st1 : list ostate;
   c_warn : str
@@ -25,13 +25,14 @@ Definition pf_of (tab : list (str * option N)) (s : str) : option N :=
 (* what is compared *)
 Record mask := mkMask {
   m_err : bool;      (* error presence, ErrorParsing class and kind *)
+  m_args : bool;     (* arguments of the error message format (option key, value text, candidates...) *)
   m_msg : bool;      (* exact error message *)
   m_rem : bool;      (* remaining *)
   m_val : bool;      (* option values *)
   m_called : bool;   (* Called / CalledAs *)
   m_warn : bool      (* Writer *)
 }.
-Definition mask_all := mkMask true true true true true true.
+Definition mask_all := mkMask true true true true true true true.
 
 (* maps are compared as sorted association lists (keys are unique) *)
 Fixpoint insert_kv (x : str * str) (l : list (str * str)) : list (str * str) :=
@@ -68,8 +69,9 @@ Definition check_case (m : mask) (c : pcase) : bool :=
   let r := run_case c in
   (negb (m_warn m) || str_eqb (concat (pr_warn r)) (c_warn c)) &&
   match pr_out r, c_err c with
-  | Err e, Some (msg, parsing, k) =>
+  | Err e, Some (msg, parsing, k, args) =>
       (negb (m_err m) || (Bool.eqb (e_parsing e) parsing && ekind_eqb (e_kind e) k)) &&
+      (negb (m_args m) || strs_eqb (e_args e) args) &&
       (negb (m_msg m) || str_eqb (e_msg e) msg)
   | Ok (st, rem), None =>
       (negb (m_rem m) || strs_eqb rem (c_rem c)) &&
@@ -112,4 +114,4 @@ Fixpoint tmismatches_from (i : nat) (cs : list tcase) : list nat :=
 Definition tmismatches := tmismatches_from 0.
 
 (* constructor-like helper used by the generated case files *)
-Definition E (m : str) (p : bool) (k : ekind) : str * bool * ekind := (m, p, k).
+Definition E (m : str) (p : bool) (k : ekind) (a : list str) : str * bool * ekind * list str := (m, p, k, a).
